@@ -574,8 +574,37 @@ public:
       // XXX: propagating down
       unsigned i = 0;
       const std::vector<variable_t> &inputs = summ.get_inputs();
+      // The matching is a parallel assignment: if a formal parameter
+      // is also passed as actual parameter in another position then
+      // the actual parameters are first copied into fresh variables so
+      // that they are read before being overwritten.
+      std::vector<variable_t> actuals;
+      for (unsigned j = 0, e = inputs.size(); j < e; ++j) {
+        actuals.push_back(cs.get_arg_name(j));
+      }
+      bool formal_is_other_actual = false;
+      for (unsigned j = 0, e = inputs.size(); j < e; ++j) {
+        if (!(inputs[j] == actuals[j]) &&
+            std::find(actuals.begin(), actuals.end(), inputs[j]) !=
+                actuals.end()) {
+          formal_is_other_actual = true;
+        }
+      }
+      if (formal_is_other_actual) {
+        using varname_t = typename variable_t::varname_t;
+        for (unsigned j = 0, e = inputs.size(); j < e; ++j) {
+          if (!(inputs[j] == actuals[j])) {
+            auto &vfac = const_cast<varname_t *>(&(inputs[j].name()))
+                             ->get_var_factory();
+            variable_t fresh_actual(vfac.get(), inputs[j].get_type());
+            inter_transformer_helpers<abs_dom_t>::unify(
+                callee_ctx_inv, fresh_actual, actuals[j]);
+            actuals[j] = fresh_actual;
+          }
+        }
+      }
       for (const variable_t &p : inputs) {
-        const variable_t &a = cs.get_arg_name(i);
+        const variable_t &a = actuals[i];
         if (!(a == p)) {
           inter_transformer_helpers<abs_dom_t>::unify(callee_ctx_inv, p, a);
         }
